@@ -10,8 +10,7 @@ C27 checker.  Ops (strings hex-encoded):
         without `=`); the script records that it ran, dumps its environment and stdin, prints
         `outlen` bytes of a fixed pattern and exits with `exit`.
         → `runs=<n0>,<n1>,… env=<hex|*|-> stdin=<hex|-> resp=<none|toolarge|hex> q=<ltime>:<id>:<from>|-`
-        env = the SERF_* variables the script saw, sorted, NUL-joined (`*` when two tags
-        collapse to one variable name; `-` when no script ran); q = the query's Lamport time,
+        env = the SERF_* variables the script saw, sorted, NUL-joined (`-` when no script ran); q = the query's Lamport time,
         id and the responding node's name as reported by the real node (inputs to the model).
 
   `<ev>` = `mj|ml|mf|mu|mr/<member>+<member>…` with member = `name~addr~tags` (addr `a.b.c.d` or `nil`,
@@ -36,7 +35,12 @@ def parseTags (s : String) : Option Tags :=
       | _, _ => none
     | _ => none
 
-def addrBytes (s : String) : Bytes := if s == "nil" then b "<nil>" else b s
+/-- the address as the MODEL renders it (`ipv4` / `nilAddr`), from the harness's `a.b.c.d` / `nil` -/
+def addrBytes (s : String) : Bytes :=
+  if s == "nil" then nilAddr else
+  match (s.splitOn ".").map String.toNat? with
+  | [some a, some c, some d, some e] => ipv4 a c d e
+  | _ => b s
 
 def parseMember (s : String) : Option Member :=
   match s.splitOn "~" with
@@ -82,10 +86,21 @@ def joinNul : List Bytes → Bytes
   | [x] => x
   | x :: rest => x ++ 0 :: joinNul rest
 
-def showEnv (env : List (Bytes × Bytes)) : String :=
+/-- The environment the script sees, sorted.  When two tags collapse into one variable name
+os/exec keeps the entry added last, i.e. the survivor depends on Go's map iteration order: then
+the implementation's environment is accepted (and reproduced) if it has exactly one entry per
+distinct name and every entry is one of the model's candidates. -/
+def showEnv (env : List (Bytes × Bytes)) (impl : Option Bytes) : String :=
   let names := env.map (·.1)
-  if names.eraseDups.length != names.length then "*"
-  else hx (joinNul (sortB (env.map fun p => p.1 ++ EQ :: p.2)))
+  let entries := env.map fun p => p.1 ++ EQ :: p.2
+  if names.eraseDups.length == names.length then hx (joinNul (sortB entries))
+  else match impl with
+    | some ib =>
+      let ie := splitOn 0 ib
+      if ie.all entries.contains && ie.length == names.eraseDups.length &&
+         (ie.map fun kv => (splitOn EQ kv).head?.getD []).eraseDups.length == ie.length && sortB ie == ie
+      then hx ib else "collision-not-explained:" ++ hx (joinNul (sortB entries))
+    | none => "collision-not-explained"
 
 /-- the script's fixed output pattern -/
 def patByte (seed i : Nat) : UInt8 := if i % 97 == 96 then 10 else UInt8.ofNat (33 + (i * 31 + seed) % 90)
@@ -203,7 +218,7 @@ def step (_ : Unit) (op : List String) (impl : String) : LineOut Unit :=
       -- the response is decided by the last script that ran: all scripts print the same output
       let resp := if ran then respond limit isQ (ex == 0) out qlt qid qfrom.length else .none
       let qs := if isQ then s!"{qlt}:{qid}:{hx qfrom}" else "-"
-      let model := s!"runs={",".intercalate (counts.map toString)} env={if ran then showEnv env else "-"} stdin={if ran then hx stdin else "-"} resp={showResp resp} q={qs}"
+      let model := s!"runs={",".intercalate (counts.map toString)} env={if ran then showEnv env ((get "env=").bind bytesOfHex?) else "-"} stdin={if ran then hx stdin else "-"} resp={showResp resp} q={qs}"
       -- monitor, on the implementation's fields
       let implRuns := (get "runs=").map (·.splitOn ",")
       let wantRuns := entries.map fun es => toString ((es.filter fun p => matchesDoc p.1 event).length)
@@ -234,12 +249,15 @@ def step (_ : Unit) (op : List String) (impl : String) : LineOut Unit :=
             let simple (k : Bytes) : Bool := k.all fun c => (97 ≤ c && c ≤ 122) || (65 ≤ c && c ≤ 90) || (48 ≤ c && c ≤ 57) || c == 95
             let upper (k : Bytes) : Bytes := k.map fun c => if 97 ≤ c && c ≤ 122 then c - 32 else c
             let entriesB := splitOn 0 envB
-            if (get "env=") != some "*" && names.any (fun n => !okName n) then
+            let tagVars := (names.filter fun n => (b "SERF_TAG_").isPrefixOf n).length
+            if names.any (fun n => !okName n) then
               some ("env-name", "a SERF_* variable name has a character outside [A-Z0-9_]")
-            else if (get "env=") != some "*" && selfTags.any (fun p => simple p.1 && !p.2.contains 0 &&
+            else if tagVars != ((selfTags.map fun p => sanName p.1).eraseDups).length then
+              some ("env-tag", s!"{tagVars} SERF_TAG_ variables for {((selfTags.map fun p => sanName p.1).eraseDups).length} distinct sanitised tag names")
+            else if (selfTags.map fun p => sanName p.1).eraseDups.length == selfTags.length && selfTags.any (fun p => simple p.1 && !p.2.contains 0 &&
                 !entriesB.contains (b "SERF_TAG_" ++ upper p.1 ++ EQ :: p.2)) then
               some ("env-tag", "a tag with a plain ASCII name is not visible as SERF_TAG_<UPPER-CASED NAME>=<value>")
-            else if (get "env=") != some "*" && (!entriesB.contains (b "SERF_EVENT=" ++ event.kind.str) || !entriesB.contains (b "SERF_SELF_NAME=" ++ selfName)) then
+            else if (!entriesB.contains (b "SERF_EVENT=" ++ event.kind.str) || !entriesB.contains (b "SERF_SELF_NAME=" ++ selfName)) then
               some ("env-fixed", "SERF_EVENT / SERF_SELF_NAME missing or wrong")
             else match get "resp=" with
               | some "none" => none
